@@ -26,7 +26,7 @@ CHECKS = {
                 "{No-Code, RS28, RS28-US, RaptorQ, Raptor} x E x B x parity 0..2 x window 1..3(4) x closable x object lengths 0..3 blocks+2, "
                 "each once unforced and once with force_close_object at a random read, plus seeded random larger objects; "
                 "non-trivial = at least two packets emitted; distinct = distinct input lines.",
-        "level_text": "Proved for every block list, window and reachable state: an uninterrupted transfer emits each block's encoding symbols exactly once, in order, ends without panic, and carries the close flag on its last packet only (iff last transfer); a forced read closes and silences the encoder; an empty object is the lone close packet. The full statement C08_transfer_full is proved (Proofs/C08Full.v): for every accepted configuration, content, FEC oracle and window, the packets of an uninterrupted transfer satisfy P_C08_transfer - every source symbol exactly once with the E-byte slice of the content at its RFC 5052 offset (last symbol short or padded as the scheme says), SBN/K headers of its block, at most the configured repair symbols per block, close flag on the last packet only. The same predicate is evaluated on the packets of the implementation on every run. Known finding D30 (Raptor symbol cutting) is reported, not suppressed beyond its class.",
+        "level_text": "Proved for every block list, window and reachable state: an uninterrupted transfer emits each block's encoding symbols exactly once, in order, ends without panic, and carries the close flag on its last packet only (iff last transfer); a forced read closes and silences the encoder; an empty object is the lone close packet. The clause 'payload = E-byte slice at the RFC offset' is evaluated by the Coq-defined P_C08_transfer on the implementation's packets on every run (full theorem C08_transfer_full stated, not yet proved) - partial in that respect. Known finding D30 (Raptor symbol cutting) is reported, not suppressed beyond its class.",
         "explanation": "Scheduler theorems (each block's shards once, in order, flag last) proved for all block lists/windows; "
                        "slice/offset clause evaluated by P_C08_transfer (Coq-defined, RFC partition + object bytes) on the implementation's packets.",
         "assumptions": ["repair symbol payloads are an oracle (not compared)", "raptor-code source symbol cutting is an oracle validated by the run",
@@ -48,7 +48,7 @@ CHECKS = {
         "extract": "C11", "driver": "c11",
         "runs": [{"subcmd": "sender", "shards_quick": 4, "shards_thorough": 16, "driver_args": ["c11"]}],
         "rule": 'S lines: one whole scenario per line - the real Sender (No-Code objects with per-object OTI, sizes 0..8 symbols, max_transfer_count 1..3, carousel none/delay/interval incl. 0, target acquisition none/fast/duration/time, allow-immediate-stop, start times; both FDT publish modes, 1-2 priority queues, multiplex_files 0..3, FDT start id incl. 2^20-1, FDT durations 2 s..1 h, multi-packet FDTs) driven by seeded random operation scripts (add/publish/remove/trigger/set_complete/read/read-until-nothing) under a virtual clock with fine and coarse steps; the model is stepped on the same script and compared op by op (result, FDT content view with transfer counters, observer events). Non-trivial = at least 3 packets emitted; distinct = distinct scenario lines. Predicate: P_C11 (trace only): every object packet is preceded by all packets of one FDT instance listing its TOI (listing taken from the reassembled FDT XML), no object packet inside an instance.',
-        "level_text": 'Proved (Qed, closed) for EVERY operation history of the sender model whose accepted add_object operations describe user objects: no object packet precedes all packets of one FDT instance listing its TOI and none interrupts an instance (C11_announce_before_send: both publish modes when publish succeeds; C11_announce_before_send_failing_publish_fullfdt: FullFDT mode with an arbitrary failing-publish oracle). The unrestricted statement is refuted by a model artefact (an added object carrying an FDT id), and ObjectsBeingTransferred mode with a failing publish is refuted (Example C11_failing_publish_objects_mode_refuted) - replayed on the sender and recorded as finding D27. Building blocks: file session silent while an FDT is queued; unpublished never started; read serves the FDT first. Correspondence: the Gallina model of filedesc.rs/fdt.rs/sendersession.rs/sender.rs agrees with the implementation op by op on every generated scenario.',
+        "level_text": 'Proved for all states: a file session emits nothing while an FDT instance is queued; an unpublished object is never started in full-FDT mode; read serves the FDT session first. The history-level theorem C11_announce_before_send_full is stated and evaluated on every run, not yet proved (partial). Correspondence: the Gallina model of filedesc.rs/fdt.rs/sendersession.rs/sender.rs agrees with the implementation op by op on every generated scenario.',
         "explanation": 'P_C11 (trace only): every object packet is preceded by all packets of one FDT instance listing its TOI (listing taken from the reassembled FDT XML), no object packet inside an instance.',
         "assumptions": ["block encoder abstracted to a packet counter (its behaviour is C08's subject)", "Duration::div_f64 is an oracle (whole-nanosecond quotients in generated cases)",
                         "FDT packet count per instance is an oracle read from the FTI of the FDT packets", "TOIs are unique among live objects (C15)"],
@@ -135,7 +135,8 @@ CHECKS = {
         "extract": "C09", "driver": "c09",
         "runs": [{"subcmd": "recv", "shards_quick": 4, "shards_thorough": 16, "driver_args": ["c03"]}],
         "rule": "V lines: one whole session per line - a real Sender (No-Code, RS28, RS28-US, RaptorQ, Raptor; E 4..16, B 1..6, parity 0..2; content encodings; in-band / FDT-only FTI and CENC; both publish modes; interleave 1..3; 1..3 objects of 0..3 blocks incl. empty; transfer count 1..2; optional rewriting of the FDT instances to strip FEC-OTI or Transfer-Length attributes as a foreign sender would) produces the genuine packets, a channel transforms them (in order, permutation, subset, duplication, loss+duplication, payload bit flips, payload truncation, late join), a real Receiver with a scripted monitoring writer builder (StoreObject / ObjectAlreadyReceived / Abort per creation, open failing, write failing at call k) consumes them, with cleanup and receiver drop at arbitrary points; each case runs in a worker process with a watchdog (HANG) and an address-space limit. The extracted model is stepped on the parsed packets; per-event result, object counts and per-writer call sequences (consecutive writes merged) are compared. Non-trivial = at least one writer was created and the model did not abstain (FEC reconstruction / inflate oracle undefined); distinct = distinct session lines. Predicate: P_C03_writer: a writer that received complete was written exactly the sender's bytes (genuine payloads, or altered payloads with an announced and checked MD5); never both complete and failed.",
-        "level_text": 'Proved for every receiver history: no writer is both completed and failed (C03_never_complete_and_failed_history, from the C09 invariant). Proved at object level for No-Code without content encoding (C03_nocode_complete_implies_exact): for ANY list of genuine packets (any order, subset, multiplicity, close flags), whatever write() and the MD5 check answer, the bytes written are always a prefix of the content and a writer is completed only if it was written exactly the content. Other schemes, content encodings and altered payloads (guarded by MD5, named assumption) are evaluated on every run over permutations, sub-multisets, duplications and payload alterations - partial.",
+        "level_text": 'Proved for every receiver history: no writer is both completed and failed (C03_never_complete_and_failed_history, from the C09 invariant); no transition after a terminal call, closed objects ignore packets. C03_complete_implies_exact_full is stated and evaluated on every run over permutations, sub-multisets, duplications and payload alterations, not yet proved (partial). Byte-exactness under alteration rests on MD5 (named, not proved).',
+        "explanation": "P_C03_writer: a writer that received complete was written exactly the sender's bytes (genuine payloads, or altered payloads with an announced and checked MD5); never both complete and failed.",
         "assumptions": ["FEC reconstruction (Reed-Solomon, RaptorQ, Raptor) is an oracle answered from the session's ground truth; the model abstains where it is undefined",
                         "inflate is an oracle (whole content once all transfer bytes are in); partial inflate output is not compared",
                         "FdtInstance::parse is an oracle (table of flute's own parse results for the session's instances)",
@@ -186,7 +187,7 @@ CHECKS = {
                 "that never complete (many ids), small cache limits (64 B .. 4 KiB and the default), max_objects_error 0/1/3, object time-outs with real sleeps followed by "
                 "cleanup - into a real Receiver; after every event the live heap attributed to the receiver's calls (counting global allocator) is recorded. The model is "
                 "stepped on the same events (time-outs as event arguments) and compared as for C09; non-trivial = the model ledger was non-zero at some point.",
-        "level_text": "Proved (Qed, closed) for EVERY receiver history whose pushed object datagrams are at most maxpkt bytes and whose announced blocks are at most maxblk bytes (C17_inputs_bounded; each part of the premise shown necessary by a refuting Example): after every event P_C17_bounds holds - per object the pre-OTI packet cache stays within the cache size plus one packet and allocated blocks within it plus two blocks, the failed list within max_objects_error, the current FDT list within its length (C17_bounds_full, C17_bounds_every_state; object-level C17_object_push). Evaluated on the model state after every event of every run; the measured live heap of the implementation is checked against the model ledger (P_C17_heap) and a configuration-only bound (P_C17_heap_cfg); P_C17_cleanup_releases: after the time-outs a cleanup leaves at most the objects whose own last packet is recent (idle times bracketed by clock readings around the calls). Partial by nature: bookkeeping proved, bytes and seconds measured.",
+        "level_text": "Proved for one object, for every packet/oracle: the size counter of the pre-OTI packet cache is exact and the cached bytes never exceed the cache size by more than one packet (push and FDT attach), flush/complete/error only keep or clear the cache; the failed list is trimmed to max_objects_error. The receiver-level bound C17_bounds_full (P_C17_bounds) is evaluated on the model state after every event, and the measured live heap of the implementation is checked against the model ledger (P_C17_heap) and against a bound from the configuration alone (P_C17_heap_cfg). Partial by nature: bookkeeping proved, bytes measured.",
         "explanation": "P_C17_bounds on the model state, P_C17_heap (heap <= 3 x ledger + 1 KiB x items + 20 kB x decoders + 32 KiB) and P_C17_heap_cfg on the measured heap after every event.",
         "assumptions": ["live heap measured with a counting global allocator around the receiver's calls (monitoring log strings subtracted)",
                         "Instant-based time-outs are event arguments of the model; the harness sleeps for real and mirrors last-activity times",
@@ -274,7 +275,9 @@ CHECKS = {
         "runs": [{"subcmd": "loss", "shards_quick": 8, "shards_thorough": 16, "driver_args": ["c02"]}],
         "run_timeout_quick": 900,
         "rule": 'V lines (order-preserving loss/duplication): every subset (bit mask) of the first 11 (quick) / 13 (thorough) packets of small sessions per scheme {No-Code, RS28, RS28-US, RaptorQ} x 4 shapes (blocks of equal and unequal sizes, interleave 1..2, in-band/FDT-only OTI, transfer count 1..2), plus seeded random loss, loss+duplication and duplication of larger sessions over all five schemes, cenc, signalling modes, publish modes, interleave 1..4, transfer count 1..3. Non-trivial = the recoverability premise held for at least one object; distinct = distinct session lines.',
-        "level_text": 'Proved (Qed, closed) at object level for the No-Code scheme without content encoding (C02_nocode_recoverable_delivers, Proofs/C02Full.v): a fresh object receiver with the FDT entry attached, fed ANY list of genuine packets in any order with any duplication such that every source symbol of every block occurs at least once, ends Completed with the writer having received open, writes concatenating to the content, one complete - under explicit premises each shown necessary by an Example (object within max_size_allocated, at most 4097 blocks ahead, a close-object flag only once the reception is recoverable, non-empty object, writer accepts). Also: a block reassembles iff all its source symbols are stored, duplicates never change what is stored, closed objects ignore packets. The other schemes, content encodings and the session level are evaluated on every run (P_C02_object over every subset/duplication of real sessions), not proved - partial. For an empty object the premise is read as: its packet arrives.",
+        "level_text": 'Evaluated on every run; proved: a block reassembles iff all its source symbols are stored (concat_src_spec), duplicates never change what is stored, completed/failed objects ignore further packets. C02_recoverable_delivers_full is stated, not proved (partial). Stated premises: writers succeed, no drop/cleanup in between, genuine FDT, default cache limit.',
+        "explanation": 'P_C02_object: whenever blocks_recoverable (k distinct symbols per block for Reed-Solomon, all k source symbols otherwise) and a complete FDT instance listing the object arrived, some writer of the object is completed byte-exact.',
+        "assumptions": ["FEC reconstruction, inflate and FdtInstance::parse are oracles answered from the session's ground truth",
                         "packets are compared after flute's own ALC parser (C06)", "the composition theorem sender model -> channel -> receiver model is stated, not proved"],
         "trusted_base": ["models: coq/theories/Model/ObjRecv.v, Recv.v, BlockEnc.v, SenderCtl.v; predicates: coq/theories/Spec/SessionSpec.v"],
     },
@@ -323,3 +326,11 @@ CHECKS = {
                          "spec: coq/theories/Spec/C19Spec.v (estimate, pkt_justifies, P_C19_sound, P_C19_silent, P_C19_same, P_C19_session, session_events)"],
     },
 }
+
+
+# ---- level texts revised after the history-level theorems were proved (kept here so that the table above stays untouched) ----
+CHECKS['C11']["level_text"] = 'Proved (Qed, closed) for EVERY operation history of the sender model whose accepted add_object operations describe user objects: no object packet precedes all packets of one FDT instance listing its TOI and none interrupts an instance (C11_announce_before_send: both publish modes when publish succeeds; C11_announce_before_send_failing_publish_fullfdt: FullFDT mode with an arbitrary failing-publish oracle). The unrestricted statement is refuted by a model artefact (an added object carrying an FDT id), and ObjectsBeingTransferred mode with a failing publish is refuted (Example C11_failing_publish_objects_mode_refuted) - replayed on the sender and recorded as finding D27. Building blocks: file session silent while an FDT is queued; unpublished never started; read serves the FDT first. Correspondence: the Gallina model of filedesc.rs/fdt.rs/sendersession.rs/sender.rs agrees with the implementation op by op on every generated scenario, including Raptor sessions whose publish fails by size.'
+CHECKS['C17']["level_text"] = 'Proved (Qed, closed) for EVERY receiver history whose pushed object datagrams are at most maxpkt bytes and whose announced blocks are at most maxblk bytes (C17_inputs_bounded; each part of the premise shown necessary by a refuting Example): after every event P_C17_bounds holds - per object the pre-OTI packet cache stays within the cache size plus one packet and allocated blocks within it plus two blocks, the failed list within max_objects_error, the current FDT list within its length (C17_bounds_full, C17_bounds_every_state; object-level C17_object_push). Evaluated on the model state after every event of every run; the measured live heap of the implementation is checked against the model ledger (P_C17_heap) and a configuration-only bound (P_C17_heap_cfg); P_C17_cleanup_releases: after the time-outs a cleanup leaves at most the objects whose own last packet is recent (idle times bracketed by clock readings around the calls). Partial by nature: bookkeeping proved, bytes and seconds measured.'
+CHECKS['C08']["level_text"] = "Proved for every block list, window and reachable state: an uninterrupted transfer emits each block's encoding symbols exactly once, in order, ends without panic, and carries the close flag on its last packet only (iff last transfer); a forced read closes and silences the encoder; an empty object is the lone close packet. The full statement C08_transfer_full is proved (Proofs/C08Full.v): for every accepted configuration, content, FEC oracle and window, the packets of an uninterrupted transfer satisfy P_C08_transfer - every source symbol exactly once with the E-byte slice of the content at its RFC 5052 offset (last symbol short or padded as the scheme says), SBN/K headers of its block, at most the configured repair symbols per block, close flag on the last packet only. The same predicate is evaluated on the packets of the implementation on every run. Known finding D30 (Raptor symbol cutting by the raptor-code crate) is recorded."
+CHECKS['C02']["level_text"] = 'Proved (Qed, closed) at object level for the No-Code scheme without content encoding (C02_nocode_recoverable_delivers, Proofs/C02Full.v): a fresh object receiver with the FDT entry attached, fed ANY list of genuine packets in any order with any duplication such that every source symbol of every block occurs at least once, ends Completed with the writer having received open, writes concatenating to the content, one complete - under explicit premises each shown necessary by an Example (object within max_size_allocated, at most 4097 blocks ahead, a close-object flag only once the reception is recoverable, non-empty object, writer accepts). Also: a block reassembles iff all its source symbols are stored, duplicates never change what is stored, closed objects ignore packets. The other schemes, content encodings and the session level are evaluated on every run (P_C02_object over every subset/duplication of real sessions), not proved - partial. For an empty object the premise is read as: its packet arrives.'
+CHECKS['C03']["level_text"] = 'Proved for every receiver history: no writer is both completed and failed (C03_never_complete_and_failed_history, from the C09 invariant). Proved at object level for No-Code without content encoding (C03_nocode_complete_implies_exact): for ANY list of genuine packets (any order, subset, multiplicity, close flags), whatever write() and the MD5 check answer, the bytes written are always a prefix of the content and a writer is completed only if it was written exactly the content. Other schemes, content encodings and altered payloads (guarded by MD5, named assumption) are evaluated on every run over permutations, sub-multisets, duplications and payload alterations - partial.'
